@@ -9,14 +9,13 @@ import (
 
 	"github.com/zerx-lab/wordZero/pkg/document"
 	"github.com/zerx-lab/wordZero/pkg/markdown"
-	"pgregory.net/rapid"
 
 	"wzverif/internal/kit"
 )
 
 func TestMain(m *testing.M) {
 	document.SetGlobalLevel(document.LogLevelSilent)
-	kit.TestMain(m, 3000, 30000)
+	kit.TestMain(m, 4000, 40000)
 }
 
 // ---------------------------------------------------------------------------------------------
@@ -538,7 +537,22 @@ func run(c Case) *kit.Result {
 	} else if md2 != md1 {
 		res.Fail("C20.E5", "fixpoint: export(convert(export(D))) differs from export(D): first %q, second %q", md1, md2)
 	}
+	attribute(c, res)
 	return res
+}
+
+// attribute counts, per clause, the failures that fall into a finding class (evidence only; the verdict is kit's).
+func attribute(c Case, res *kit.Result) {
+	for _, f := range res.Failures {
+		who := "none"
+		for _, k := range kfs {
+			if strings.Contains(" "+k.clauses+" ", " "+f.Clause+" ") && k.pred(c) {
+				who = k.id
+				break
+			}
+		}
+		res.Count("failed:"+f.Clause+":"+who, 1)
+	}
 }
 
 // describe sets labels, non-triviality and shape from the case content.
@@ -647,7 +661,7 @@ func tableBetweenParagraphs(c Case) bool {
 func TestC20(t *testing.T) {
 	kit.Main(t, kit.Spec[Case]{
 		ID: "C20", Level: "exploration",
-		Rule: "document of 1-8 (thorough 1-14) blocks drawn from headings 1-9, paragraphs of 1-5 runs (bold/italic/strike/code-font combinations), bullet and numbered list items, Quote and CodeBlock paragraphs, 1-5 x 1-5 tables and empty paragraphs, in any interleaving, under every combination of export options; mode clean (about half: safe alphabet, no shape that an open finding names), benign (lists, code blocks, empty paragraphs, plain table headers, multi-format runs) and wild (hostile text classes, simple tables, metadata, wrapping of formatted text); non-trivial = a table between two text blocks, >= 2 formatted runs and >= 3 block kinds; distinct = distinct sequence of (block kind, heading level, run format masks, table size) + options + triggered finding classes",
+		Rule: "document of 1-10 (thorough 1-16) blocks drawn from headings 1-9, paragraphs of 1-5 runs (bold/italic/strike/code-font combinations), bullet and numbered list items, Quote and CodeBlock paragraphs, 1-5 x 1-5 tables and empty paragraphs, in any interleaving, under every combination of export options; mode clean (about half: safe alphabet, no shape that an open finding names), benign (lists, code blocks, empty paragraphs, plain table headers, multi-format runs) and wild (hostile text classes, simple tables, metadata, wrapping of formatted text); non-trivial = a table between two text blocks, >= 2 formatted runs and >= 3 block kinds; distinct = distinct sequence of (block kind, heading level, run format masks, table size) + options + triggered finding classes",
 		Gen:  genCase, Run: run, Findings: findings, Fixed: fixedCases,
 		Assumptions: []string{
 			"goldmark v1.7.8 with extension.GFM is taken as the reference reading of the exported Markdown (CommonMark 0.31 + GFM tables/strikethrough)",
@@ -655,7 +669,8 @@ func TestC20(t *testing.T) {
 			"block text is compared after collapsing whitespace runs; paragraphs without visible text are not expected in the Markdown; heading levels 7-9 may come out at any level",
 			"the re-imported document is observed through Body.Elements (paragraph style / numbering properties / tables), default ConvertOptions",
 		},
-		MustSee: map[string]float64{"fully-judged": 0.4, "table-between-paragraphs": 0.25, "formatted-runs>=2": 0.3, "opt:setext": 0.2, "opt:wrap": 0.15,
-			"opt:simple-tables": 0.03, "kind:li": 0.08, "kind:code": 0.08, "kind:table": 0.4, "trigger:KF-C20-no-escape": 0.03},
+		MustSee: map[string]float64{"fully-judged": 0.3, "table-between-paragraphs": 0.15, "formatted-runs>=2": 0.3, "opt:setext": 0.3, "opt:wrap": 0.2,
+			"opt:simple-tables": 0.015, "opt:metadata": 0.015, "kind:li": 0.05, "kind:code": 0.04, "kind:empty": 0.025, "kind:table": 0.4, "run:multi-format": 0.02,
+			"trigger:KF-C20-no-escape": 0.02, "trigger:KF-C20-edge-blank": 0.01, "trigger:KF-C20-adjacent-format": 0.01},
 	})
 }
